@@ -724,7 +724,7 @@ impl Prop for C14 {
 pub struct C11Case {
     pub width: u8,
     pub extra_threads: u8,
-    /// 0 user pool, 1 default pool, 2 inside a batch, 3 async dispatcher, 4 default pool with a narrow batch registered before the wide stage, 5 inside a batch that is registered before the pool is attached, 6 like 5 with a one-thread pool attached first and replaced
+    /// 0 user pool, 1 default pool, 2 inside a batch, 3 async dispatcher, 4 default pool with a narrow batch registered before the wide stage, 5 inside a batch that is registered before the pool is attached, 6 like 5 with a one-thread pool attached first and replaced, 7 inside a batch inside a batch with the pool attached to the outermost builder last (the innermost dispatcher gets a default pool of its own), 8 like 7 with the pool given to every builder
     pub mode: u8,
     /// number of groups that get a second, chained member (positions >= 1 do not rendezvous)
     pub tail: u8,
@@ -835,8 +835,8 @@ fn c11_plan(case: &C11Case) -> Plan {
         }
         return all;
     }
-    if matches!(case.mode, 2 | 5 | 6) {
-        vec![Op::Batch {
+    if matches!(case.mode, 2 | 5 | 6 | 7 | 8) {
+        let one = vec![Op::Batch {
             name: "batch".into(),
             deps: vec![],
             decl: 0,
@@ -844,7 +844,21 @@ fn c11_plan(case: &C11Case) -> Plan {
             rt: 3,
             inner: ops,
             extra_deps: vec![],
-        }]
+        }];
+        if matches!(case.mode, 7 | 8) {
+            // a batch inside a batch
+            vec![Op::Batch {
+                name: "outer".into(),
+                deps: vec![],
+                decl: 0,
+                ctl: Ctl::Custom { n: 1 },
+                rt: 3,
+                inner: one,
+                extra_deps: vec![],
+            }]
+        } else {
+            one
+        }
     } else {
         ops
     }
@@ -861,7 +875,7 @@ impl Prop for C11 {
         "C11"
     }
     fn rule(&self) -> &'static str {
-        "stage width 2..16 x pool size = width + 0..3 (capped at 16) x {user pool via with_pool, default pool, stage inside a batch dispatched twice, async dispatcher, default pool shared with a narrow batch registered first, stage inside a batch registered before the (only, or a replacing second) pool is attached} x 3 repeated dispatches; oracle: the first system of every group of the widest stage blocks inside run until all of them have arrived; the dispatch must complete with every rendezvous met; a missed rendezvous is retried with 2 s, 5 s, 15 s time-outs and only three misses in a row are a violation; non-trivial = every case (width >= 2); distinct = case hash"
+        "stage width 2..16 x pool size = width + 0..3 (capped at 16) x {user pool via with_pool, default pool, stage inside a batch dispatched twice, async dispatcher, default pool shared with a narrow batch registered first, stage inside a batch registered before the (only, or a replacing second) pool is attached, stage inside a batch inside a batch (pool given to every builder, or to the outermost one last)} x 3 repeated dispatches; oracle: the first system of every group of the widest stage blocks inside run until all of them have arrived; the dispatch must complete with every rendezvous met; a missed rendezvous is retried with 2 s, 5 s, 15 s time-outs and only three misses in a row are a violation; non-trivial = every case (width >= 2); distinct = case hash"
     }
     fn stream_len(&self) -> usize {
         24
@@ -870,7 +884,7 @@ impl Prop for C11 {
         C11Case {
             width: 2 + src.pick(15) as u8,
             extra_threads: src.pick(4) as u8,
-            mode: src.pick(7) as u8,
+            mode: src.pick(9) as u8,
             tail: src.pick(6) as u8,
             join: src.chance(8, 16),
             hints: src.pick(3) as u8,
@@ -915,6 +929,15 @@ impl Prop for C11 {
                 st.class("with_later_single_group_stage");
             }
         }
+        // modes that end up on a default pool (one thread per CPU): nothing is claimed for stages
+        // wider than the machine
+        if matches!(case.mode, 1 | 4 | 7) {
+            let cpus = std::thread::available_parallelism().map(|n| n.get()).unwrap_or(1);
+            if w > cpus {
+                st.class("skipped_default_pool_smaller_than_the_stage");
+                return Ok(());
+            }
+        }
         let mut last_err = None;
         // once a miss was confirmed, shrinking and later cases use a single short attempt
         let schedule: &[u64] = if C11_SEEN_MISS.load(SeqCst) {
@@ -953,7 +976,11 @@ fn c11_attempt(
     let flat = Arc::new(compile(plan));
     let ctx = Ctx::new(flat.clone());
     // members: the systems that form the first stage of the builder holding the wide stage
-    let wide_bid = if matches!(case.mode, 2 | 5 | 6) { 1 } else { 0 };
+    let wide_bid = match case.mode {
+        2 | 5 | 6 => 1,
+        7 | 8 => 2,
+        _ => 0,
+    };
     let w = case.width.clamp(2, 16) as usize;
     // mode 4: builder 0 starts with the narrow batch, the wide systems follow it
     let skip = if case.mode == 4 { 1 } else { 0 };
@@ -974,7 +1001,7 @@ fn c11_attempt(
         // modes 5 / 6: the batch is registered before the pool is attached (6: a one-thread pool is
         // attached first and replaced afterwards); the batch follows the builder's pool slot
         pool_attach: match case.mode {
-            5 => 1,
+            5 | 7 => 1,
             6 => 2,
             _ => 0,
         },
@@ -986,7 +1013,7 @@ fn c11_attempt(
     ctx.set_phase(PHASE_RUN);
     let dispatches = 3usize;
     let _ = &flat;
-    let inner_factor = if matches!(case.mode, 2 | 5 | 6) { 2 } else { 1 };
+    let inner_factor = if matches!(case.mode, 2 | 5 | 6 | 7 | 8) { 2 } else { 1 };
     let r = catch_unwind(AssertUnwindSafe(|| {
         if case.mode == 3 {
             let mut d = builder.build_async(fresh_world());
